@@ -1,6 +1,7 @@
 //! `sim`: deterministic simulation harness for grmtools. See /verif/DESIGN.md.
 mod common;
 mod driver_r;
+mod engine_n;
 mod engine_r;
 mod gram;
 mod lexstub;
@@ -47,6 +48,7 @@ fn real_main(args: &[String]) -> i32 {
             }
             match prop.as_str() {
                 "C05" | "C06" | "C07" | "C08" => driver_r::check_main(prop, tier),
+                "C19" => engine_n::check_main(tier),
                 _ => usage(),
             }
         }
@@ -62,6 +64,7 @@ fn real_main(args: &[String]) -> i32 {
             };
             match v["engine"].as_str() {
                 Some("R") => driver_r::replay_main(p, quiet),
+                Some("N") => engine_n::replay_main(&v, p, quiet),
                 _ => {
                     eprintln!("harness error: unknown engine in {p}");
                     EXIT_HARNESS
